@@ -206,3 +206,37 @@ func init() {
 		c.Res.ExhaustiveNote = fmt.Sprintf("every completion order of the opens for %d sampled inventories of each size 2..%d", reps, maxN)
 	}
 }
+
+// the heap algorithm itself: HeapMerge.merge (model of mergeIter over container/heap) must give the
+// implementation's output record for record, ties included
+func init() {
+	propsExtra["C04"] = append(propsExtra["C04"], func(c *Ctx) {
+		spec := &Spec[c04Case]{
+			What: "HeapMerge.merge == SelectLogs output order (record for record)",
+			Gen:  c04Gen,
+			Req: func(t c04Case) Sexp {
+				srcs := make([]Sexp, len(t.Srcs))
+				for i, s := range t.Srcs {
+					xs := make([]Sexp, len(s))
+					for j, ts := range s {
+						xs[j] = N(ts)
+					}
+					srcs[i] = LS(xs)
+				}
+				return L(A("heapmerge"), LS(srcs))
+			},
+			Impl: func(t c04Case) Sexp {
+				out, _ := c04Merge(t, t.Order)
+				return out
+			},
+			Shrink:        c04Shrink,
+			Nontrivial:    func(t c04Case, impl Sexp) bool { return len(t.Srcs) >= 2 },
+			PropertyFails: func(t c04Case, impl, model Sexp) bool { return false },
+			Signature:     func(t c04Case, impl, model Sexp) string { return "heap-order" },
+			Tags: func(t c04Case, impl Sexp) []string {
+				return []string{fmt.Sprintf("c04heap:containers=%d", len(t.Srcs))}
+			},
+		}
+		RunSpec(c, spec, c.Scale(2000, 60000))
+	})
+}
